@@ -70,6 +70,10 @@ void *realloc(void *ptr, size_t len)
     if (ptr == 0)
         return malloc(len);
 
+    /* same minimum as malloc: a chunk must be able to hold a freelist entry */
+    if (len < sizeof(struct __freelist) - sizeof(size_t))
+        len = sizeof(struct __freelist) - sizeof(size_t);
+
     cp1 = (char *)ptr;
     cp1 -= sizeof(size_t);
     fp1 = (struct __freelist *)cp1;
